@@ -53,7 +53,7 @@ def native_replay(snap, g: Group, inputs, workdir):
     os.makedirs(workdir, exist_ok=True)
     d = snap.cfg_dir(g.config)
     tus = g.native_tus if g.native_tus is not None else g.tus
-    srcs = [t if t.startswith("/") else os.path.join(d, "m4ri", t + ".c") for t in tus]
+    srcs = [t if t.startswith("/") else os.path.join(d, "m4ri", t + ".c") for t in tus if t != "@libm"]
     defs = ["-D%s=%s" % (k, v) if v is not None else "-D%s" % k for k, v in g.defines.items()]
     exe = os.path.join(workdir, "replay.bin")
     cmd = (["gcc", "-std=gnu11", "-w", "-g", "-O1", "-fsanitize=address,undefined", "-fno-sanitize-recover=undefined", "-fno-omit-frame-pointer",
